@@ -1577,6 +1577,14 @@ fn run_case(script: &str, specs: &[String], args: &[Args], sig: &str, rt: &Runti
             if rep.notes.len() < 5 {
                 rep.notes.push(format!("generator produced a rejected script: {msg}"));
             }
+            // every generated script is well-typed by construction (0 rejections on
+            // the unchanged tree): a rejection breaks the tie
+            crate::viol(
+                rep,
+                &format!("the compiler rejects a well-typed script: {msg}"),
+                "rejected-well-typed",
+                input(json!(msg)),
+            );
             return;
         }
         Ok(Ok(p)) => p,
